@@ -64,6 +64,8 @@ func (c Case) Describe() string {
 			fmt.Fprintf(&b, "kill(%s by %q poison=%v via=%s) ", o.Target, o.From, o.Poison, o.Via)
 		case "settle":
 			b.WriteString("settle ")
+		case "advance":
+			b.WriteString("advance(1.5s) ")
 		case "spawnin":
 			fmt.Fprintf(&b, "%s.spawn(%s) ", o.Actor, o.Child)
 		default:
@@ -127,7 +129,7 @@ func genCase(t *rapid.T) Case {
 	// set-up: watchers, subscriptions, jobs
 	ns := rapid.IntRange(0, 8).Draw(t, "nSetup")
 	for i := 0; i < ns; i++ {
-		k := rapid.SampledFrom([]string{"watch", "watch", "watch", "unwatch", "sub", "sub", "job", "unsubone"}).Draw(t, "setup")
+		k := rapid.SampledFrom([]string{"watch", "watch", "watch", "unwatch", "sub", "sub", "job", "unsubone", "jobonce"}).Draw(t, "setup")
 		o := Op{Kind: k, Actor: pick("actor")}
 		switch k {
 		case "watch", "unwatch":
@@ -138,6 +140,10 @@ func genCase(t *rapid.T) Case {
 		c.Ops = append(c.Ops, o)
 	}
 	c.Ops = append(c.Ops, Op{Kind: "settle"})
+	if rapid.IntRange(0, 2).Draw(t, "timePasses") == 0 {
+		// one-shot jobs have fired and periodic ones have ticked by the time of the kills
+		c.Ops = append(c.Ops, Op{Kind: "advance"})
+	}
 	nk := rapid.IntRange(1, 4).Draw(t, "nKills")
 	for i := 0; i < nk; i++ {
 		o := Op{Kind: "kill", Target: pick("victim"), Poison: rapid.Bool().Draw(t, "poison"), Via: rapid.SampledFrom([]string{"", "", "clone", "parse"}).Draw(t, "via")}
@@ -196,6 +202,12 @@ func run(t *testing.T, c Case) (v *verdict, nontrivial bool, labels []string) {
 			case "job":
 				jobID++
 				w.Tell(o.Actor, "", 0, []world.Step{{Op: "loop", To: o.Actor, D: int64(time.Second), ID: jobID, S: fmt.Sprintf("j%d", jobID)}})
+			case "jobonce":
+				jobID++
+				w.Tell(o.Actor, "", 0, []world.Step{{Op: "once", To: o.Actor, D: int64(100 * time.Millisecond), ID: jobID, S: fmt.Sprintf("j%d", jobID)}})
+			case "advance":
+				vt.Advance(1500 * time.Millisecond)
+				lab["time-passes-before-the-kills"] = true
 			case "spawnin":
 				sp := world.Spec{Name: o.Child}
 				w.Tell(o.Actor, "", 0, []world.Step{{Op: "spawn", Spec: &sp}})
